@@ -137,6 +137,9 @@ def cases(tier):
 def _extra_cases(tier):
     """sizes beyond the product lattice: radial samplings above 64 (not a multiple of 64) and mode counts above
     64 - block-wise implementations change behaviour there; and mask flags that are true without being `True`"""
+    # many modes on a fine radial grid (more than 1000 candidate eigenvalues; variances down to 1e-7 of the first)
+    for ri, nr, nf in ((0.2, 40, 400), (0.2, 40, 900), (0.1, 50, 250)) if tier == "quick" else ((0.2, 40, 400), (0.2, 40, 900), (0.1, 50, 250), (0.3, 64, 250), (0.2, 70, 160)):
+        yield Case("polar:ri=%g:nr=%d:nf=%d" % (ri, nr, nf), {"kind": "polar", "ri": ri, "nr": nr, "nf": nf, "edge": False}, True)
     for ri, nr, nf in ((0.2, 70, 3), (0.3, 65, 6)) if tier == "quick" else ((0.2, 70, 3), (0.3, 65, 6), (0.1, 96, 10), (0.5, 130, 4)):
         yield Case("polar:ri=%g:nr=%d:nf=%d" % (ri, nr, nf), {"kind": "polar", "ri": ri, "nr": nr, "nf": nf, "edge": False}, True)
     for dim, ri, nr, nm in ((16, 0.2, 16, 70), (17, 0.3, 24, 100)) if tier == "quick" else ((16, 0.2, 16, 70), (17, 0.3, 24, 100), (32, 0.1, 40, 150)):
